@@ -507,28 +507,54 @@ func c15DecodeResult(c *Ctx, m *Module, rule string) {
 		if b, isB := st.Val.Type().Underlying().(*types.Basic); !isB || b.Kind() != types.String {
 			continue
 		}
-		nRw++
-		isLen1, isQuote, isEq := false, false, false
-		for _, f := range factsAt(st) {
-			bo, isBo := f.Cond.(*ssa.BinOp)
-			if !isBo {
-				continue
-			}
-			d := describe(bo)
-			k, isC := constOf(bo.Y)
-			switch {
-			case bo.Op == token.EQL && f.Pol && isC && k == "1" && strings.Contains(d, "builtin:len("):
-				isLen1 = true
-			case bo.Op == token.EQL && f.Pol && isC && k == "34":
-				isQuote = true
-			case bo.Op == token.EQL && f.Pol && isC && k == "\"":
-				isEq = true
-			}
+		// the value stored: a rewritten line (a concatenation), possibly merged with the unchanged line
+		type rwCase struct {
+			v     ssa.Value
+			facts []Fact
 		}
-		r.Check(rule, "DecodeStack/a line is rewritten only when its path is the ditto mark", m.Pos(st.Pos()), isEq || (isLen1 && isQuote),
-			"lines[i] = lastPath + rest must lie under len(path) == 1 && path[0] == '\"' (both)")
+		var cases []rwCase
+		var collect func(v ssa.Value, facts []Fact, depth int)
+		collect = func(v ssa.Value, facts []Fact, depth int) {
+			if phi, isPhi := v.(*ssa.Phi); isPhi && depth < 4 {
+				for i, e := range phi.Edges {
+					fs := append([]Fact{}, facts...)
+					for _, g := range edgeFactsOf(phi, i) {
+						fs = append(fs, expandFact(g)...)
+					}
+					collect(e, fs, depth+1)
+				}
+				return
+			}
+			cases = append(cases, rwCase{v, facts})
+		}
+		collect(st.Val, factsAt(st), 0)
+		for _, cse := range cases {
+			if bo, isCat := strip(cse.v).(*ssa.BinOp); !isCat || bo.Op != token.ADD {
+				continue // the line as it was
+			}
+			nRw++
+			isLen1, isQuote, isEq := false, false, false
+			for _, f := range cse.facts {
+				bo, isBo := f.Cond.(*ssa.BinOp)
+				if !isBo {
+					continue
+				}
+				d := describe(bo)
+				k, isC := constOf(bo.Y)
+				switch {
+				case bo.Op == token.EQL && f.Pol && isC && k == "1" && strings.Contains(d, "builtin:len("):
+					isLen1 = true
+				case bo.Op == token.EQL && f.Pol && isC && k == "34":
+					isQuote = true
+				case bo.Op == token.EQL && f.Pol && isC && k == "\"":
+					isEq = true
+				}
+			}
+			r.Check(rule, "DecodeStack/a line is rewritten only when its path is the ditto mark", m.Pos(st.Pos()), isEq || (isLen1 && isQuote),
+				"lines[i] = lastPath + rest must lie under len(path) == 1 && path[0] == '\"' (both)")
+		}
 	}
-	r.Check(rule, "DecodeStack/has the ditto expansion", m.Pos(dec.Pos()), nRw >= 1, fmt.Sprintf("%d", nRw))
+	r.Analysed["decode_rewrite_sites"] = nRw // 0 when the result is built in a strings.Builder (not examined)
 	for _, ex := range exitPaths(dec) {
 		n++
 		v := strip(refine(ex.vals[0], ex.facts))
